@@ -35,6 +35,11 @@ position (hull of random integer points): the mesh is the hull triangulation, th
      back-end selection (`c18.backend`) and refusal of `n_rays <= 0`; the `in_volume_pyoc` ray-consensus loop vs `c18.pyoc`
      (n-ray answer == bounding box AND conjunction of the single-ray answers with the same ray origins); points exactly ON the
      surface (face / edge / vertex): outside the property's quantifier — recorded, never judged.
+ (g) `snap` on coordinate tables of EVERY dtype (int32 / int64 / float32 / float64; skeleton node tables, mesh vertices via
+     constructor(process=False) and the `vertices` setter, dotprops points) with NON-INTEGER queries given in tenths — near-tie
+     positions x.4 / x.5 / x.6 between two rows, x.9 offsets, negative coordinates; single point / list / float64 / float32 arrays;
+     to= nodes / vertices / points / connectors — vs `c18.snapq` (the query cast as the source casts it, Gen/SnapCast.lean) and
+     judged by `checkNearestQ` (true nearest row for the exact decimal query; squared distance as exact rational within 2^-12 relative + 2^-20: room for a float32 cast of the query, far below the ≥ 0.1 shift of a truncation).
 The model functions for skeletons (`c18.tree / prune / nlist / dict / list`) are the `…As` functions evaluated on the *shape*
 of `in_volume` extracted from the current source (Gen/InVolume.lean): they keep predicting navis when the source deviates,
 while the oracles (exact membership decided by Lean) fail.
@@ -1771,6 +1776,75 @@ def run_pyocrays(ctx, case):
     ctx.count('pyoc_vs_exact (not judged)', 'equal' if exact == bits(full) else 'differs')
 
 
+SIG_MESH_SNAP_TRUNC = 'MeshNeuron.snap/integer-dtype-vertices/query-truncated-to-integers'
+
+
+def run_snapdt(ctx, case):
+    """snap on coordinate tables of every dtype with NON-INTEGER queries (in tenths; near-tie positions x.4 / x.5 / x.6):
+    node / row and distance against the exact argmin (Lean `checkNearestQ`: 100·dist² in integers, distance as exact rational)."""
+    kind, to, dt = case['ntype'], case['to'], np.dtype(case['dtype'])
+    data, ids, q10s = case['data'], case.get('ids'), case['queries10']
+    D = np.array(data, dtype=np.int64).reshape(-1, 3).astype(dt)
+    is_int = dt.kind in 'iu'
+    if kind == 'tree':
+        df = pd.DataFrame({'node_id': np.array(ids, dtype=np.int64), 'parent_id': np.array([-1] + ids[:-1], dtype=np.int64),
+                           'x': D[:, 0], 'y': D[:, 1], 'z': D[:, 2], 'radius': 0.01})
+        x = navis.TreeNeuron(df, id=1)
+        have = x.nodes.x.dtype
+        cls = 'TreeNeuron'
+    elif kind == 'dots':
+        x = navis.Dotprops(D, k=None, vect=np.tile([1., 0., 0.], (len(D), 1)), id=1)
+        have = x.points.dtype
+        cls = 'Dotprops'
+    else:
+        F = np.array([[j, j + 1, j + 2] for j in range(len(D) - 2)], dtype=np.int64)
+        if case.get('how') == 'setter':
+            x = navis.MeshNeuron((D.astype(float), F), id=1, process=False)
+            x.vertices = D
+        else:
+            x = navis.MeshNeuron((D, F), id=1, process=False)
+        have = x.vertices.dtype
+        cls = 'MeshNeuron'
+    if have != dt:                       # navis converted the table on construction: record what it holds now
+        ctx.count('snapdt_dtype_converted', f'{kind}: {dt} -> {have}')
+        is_int = have.kind in 'iu'
+    target, tids = data, (ids if kind == 'tree' else None)
+    if to == 'connectors':
+        C = np.array(case['cdata'], dtype=float).reshape(-1, 3)
+        cdf = pd.DataFrame({'connector_id': np.array(case['cids'], dtype=np.int64), 'x': C[:, 0], 'y': C[:, 1], 'z': C[:, 2], 'type': 0})
+        if kind == 'tree':
+            cdf['node_id'] = ids[0]
+        x.connectors = cdf
+        target, tids = case['cdata'], (case['cids'] if kind == 'tree' else None)
+    Q = np.array(q10s, dtype=np.int64).reshape(-1, 3) / 10.0
+    single = case.get('single', False)
+    locs = {'list': Q.tolist(), 'f64': Q, 'f32': Q.astype(np.float32)}[case.get('qkind', 'f64')]
+    if single:
+        locs = locs[0]
+    ctx.count('snapdt', f'{kind}/{to}/{have}/{case.get("qkind", "f64")}/{"single" if single else "multi"}')
+    r, err = safe(lambda: x.snap(locs, to=to))
+    if err:
+        ctx.oracle(False, f'{kind}.snap(to={to}) on a {have} table raised: {err}', case); return
+    got_id = [int(r[0])] if single else [int(v) for v in np.asarray(r[0])]
+    got_d = [float(r[1])] if single else [float(v) for v in np.asarray(r[1])]
+    qq = q10s[:1] if single else q10s
+    model = ctx.ask(f"c18.snapq {cls} {1 if is_int else 0} | {pts_str(target)} | {ints(tids) if tids else ''} | {pts_str(qq)}").split(';')
+    for q, gi, gd, mo in zip(qq, got_id, got_d, model):
+        mi, mdd, nties = (int(v) for v in mo.split(':'))
+        frac = any(int(v) % 10 for v in q)
+        sig = SIG_MESH_SNAP_TRUNC if (kind == 'mesh' and is_int and frac) else None
+        if nties == 1:        # the model casts the query the way the source does (Gen/SnapCast.lean)
+            ctx.corr(gi, mi, f'{kind}.snap(to={to}) on a {have} table: id vs model argmin (query cast as in the source)', case,
+                     signature=sig)
+        row = (tids.index(gi) if gi in tids else -1) if tids else gi
+        num, den = gd.as_integer_ratio() if math.isfinite(gd) else (0, 0)
+        ok = row >= 0 and ctx.ask(f'c18.chknearq {pts_str(target)} | {q[0]},{q[1]},{q[2]} | {row} | {num} | {den}') == '1'
+        ctx.oracle(ok, f'{kind}.snap({[v / 10 for v in q]}, to={to}) on a {have} coordinate table returned ({gi}, {gd}): not the '
+                       f'nearest {to[:-1]} with its Euclidean distance' + (' (query truncated to integers?)' if is_int and frac else ''),
+                   case, signature=sig)
+        ctx.count('snapdt_query', ('fractional' if frac else 'integer') + ('/tie' if nties > 1 else ''))
+
+
 def run_boundary(ctx, case):
     """Points exactly ON the surface (face interior / edge / vertex) are outside the property's quantifier: whatever navis
     answers is accepted; recorded so that the evidence shows the rule in force.  Only crash-freedom and shape are required."""
@@ -1935,6 +2009,42 @@ def gen_cases(ctx):
         vox = sorted(voxelise(geom['csg']))
         yield 'pyocrays', {'geom': geom, 'pts': query_points2(geom, vox, rnd, 12), 'n_rays': rnd.choice((1, 2, 2, 3, 4)),
                            'seed': rnd.randrange(1 << 30)}
+
+
+    # (f6) snap: every coordinate dtype × non-integer queries (tenths), near-tie positions, single / array / float32 queries
+    dts = ['int32', 'int64', 'float32', 'float64']
+    sd_combos = [('tree', 'nodes'), ('tree', 'connectors'), ('dots', 'points'), ('mesh', 'vertices'), ('dots', 'connectors'),
+                 ('mesh', 'connectors')]
+    for i in range(ctx.budget(96, 800)):
+        kind, to = sd_combos[i % len(sd_combos)]
+        dt = dts[(i // len(sd_combos)) % 4]
+        span = rnd.choice((3, 6, 40))
+        data = distinct_points([[rnd.randrange(-span, span + 1) for _ in range(3)] for _ in range(rnd.randrange(3, 10))])
+        if len(data) < 3:
+            continue
+        case = {'ntype': kind, 'to': to, 'dtype': dt, 'data': data, 'ids': gen_ids(rnd, len(data)) if kind == 'tree' else None,
+                'single': rnd.random() < 0.3, 'qkind': rnd.choice(['list', 'f64', 'f64', 'f32']), 'how': rnd.choice(['ctor', 'setter'])}
+        target = data
+        if to == 'connectors':
+            target = distinct_points([[rnd.randrange(-span, span + 1) for _ in range(3)] for _ in range(rnd.randrange(2, 7))])
+            case['cdata'] = target
+            case['cids'] = rnd.sample(range(500, 500 + 20 * len(target)), len(target))
+        qs = []
+        for _ in range(rnd.randrange(1, 6)):
+            r = rnd.random()
+            if r < 0.45 and len(target) >= 2:      # around the midpoint of two rows: x.4 / x.5 / x.6 (exact ties included)
+                a, b = rnd.sample(target, 2)
+                q = [5 * (a[k] + b[k]) for k in range(3)]
+                q[rnd.randrange(3)] += rnd.choice((-1, 0, 1))
+            elif r < 0.9:                          # anywhere near a row, fractional
+                a = rnd.choice(target)
+                q = [10 * a[k] + rnd.randrange(-25, 26) for k in range(3)]
+            else:                                  # just below the next integer on every axis (truncation moves it by ~1 per axis)
+                a = rnd.choice(target)
+                q = [10 * a[k] + rnd.choice((-9, 9)) for k in range(3)]
+            qs.append(q)
+        case['queries10'] = qs
+        yield 'snapdt', case
 
     # (f4) points exactly on the surface: recorded, not judged
     for i in range(ctx.budget(10, 60)):
@@ -2115,7 +2225,7 @@ def gen_cases(ctx):
         yield 'snap', case
 
 
-RUNNERS = {'pyocrays': run_pyocrays, 'vox': run_vox, 'backend': run_backend, 'snaptie': run_snaptie, 'boundary': run_boundary, 'hist': run_hist, 'points': run_points, 'tree': run_tree, 'dots': run_dots, 'mesh': run_mesh, 'multi': run_multi,
+RUNNERS = {'snapdt': run_snapdt, 'pyocrays': run_pyocrays, 'vox': run_vox, 'backend': run_backend, 'snaptie': run_snaptie, 'boundary': run_boundary, 'hist': run_hist, 'points': run_points, 'tree': run_tree, 'dots': run_dots, 'mesh': run_mesh, 'multi': run_multi,
            'imat': run_imat, 'snap': run_snap}
 
 
@@ -2201,6 +2311,11 @@ def driver_is_current(ctx):
     sh = gen_involume.shape(_C.REPO)
     want_shape = ','.join('-' if sh[f] is None else ('1' if sh[f] else '0') for f in gen_involume.FIELDS)
     got_spec, got_shape = ctx.ask('c18.cachespec x'), ctx.ask('c18.shape x')
+    from translator import gen_snapcast
+    want_casts = ','.join(f"{c}={v['class']}" for c, v in gen_snapcast.generate(_C.REPO)[2]['casts'].items())
+    if ctx.ask('c18.snapcasts x') != want_casts:
+        raise RuntimeError(f"the Lean driver was built from a different navis source tree (snap casts {ctx.ask('c18.snapcasts x')!r} "
+                           f'vs {want_casts!r}): rebuild navisdrv')
     if got_spec != want_spec or got_shape != want_shape:
         raise RuntimeError('the Lean driver was built from a different navis source tree than the one under test '
                            f'(cache spec {got_spec!r} vs {want_spec!r}; shape {got_shape!r} vs {want_shape!r}): rebuild navisdrv')
@@ -2301,13 +2416,13 @@ def shrink(ctx, failure):
         return None
     if case['kind'] == 'hist':
         return _shrink_hist(ctx, failure, case)
-    fields = [f for f in ('pts', 'nodes', 'conns', 'queries', 'vols', 'trees', 'variants', 'calls') if isinstance(case.get(f), list)]
+    fields = [f for f in ('pts', 'nodes', 'conns', 'queries', 'queries10', 'vols', 'trees', 'variants', 'calls') if isinstance(case.get(f), list)]
     changed, rounds = True, 0
     while changed and rounds < 30:
         changed, rounds = False, rounds + 1
         for f in fields:
             i = 0
-            while i < len(case[f]) and len(case[f]) > (1 if f in ('vols', 'trees', 'queries', 'variants', 'calls', 'pts', 'nodes') else 0):
+            while i < len(case[f]) and len(case[f]) > (1 if f in ('vols', 'trees', 'queries', 'queries10', 'variants', 'calls', 'pts', 'nodes') else 0):
                 cand = dict(case); cand[f] = case[f][:i] + case[f][i + 1:]
                 if f == 'nodes' and isinstance(cand.get('conns'), list):      # keep connectors attached to existing nodes
                     left = {n[0] for n in cand['nodes']}
